@@ -49,7 +49,7 @@ GEN = [(r'\ref{KEY}', '0'), (r'\pageref{KEY}', '0'), (r'\eqref{KEY}', '(0)'),
        (r'\parencite{KEY}', '[0]'), (r'\Parencite{KEY}', '[0]'), (r'\AA', 'Å'), (r'\O', 'Ø'), (r'\OE', 'Œ'), (r'\ae', 'æ'), (r'\l', 'ł'), (r'\oe', 'œ'),
        (r'\Glspl{zzgl}', 'Glsplurals'), (r'\GLSpl{zzgl}', 'GLSPLURALS'), (r'\Glsdesc{zzgl}', 'Descr words'), (r'\GLSdesc{zzgl}', 'DESCR WORDS'),
        (r'\glstext{zzgm}', 'secondtext'), (r'\Glstext{zzgl}', 'Glstext one'), (r'\GLStext{zzgm}', 'SECONDTEXT'), (r'\Cite[KEY][]{KEY}', '[KEY 0]'), (r'\LaTeX{}', 'LaTeX'),
-       (r'\zzbody', 'Bodyone Bodytwo'), (r'\zzhd', 'About LaTeX.'), (r'\gls{zzgn}', 'LaTeX editor'), (r'\GLS{zzgn}', 'LaTeX EDITOR'), (r'\zzopt{KEY}', 'Defword'),
+       (r'\zzvb', 'Bodyverb Verbtwo'), (r'\zzbody', 'Bodyone Bodytwo'), (r'\zzhd', 'About LaTeX.'), (r'\gls{zzgn}', 'LaTeX editor'), (r'\GLS{zzgn}', 'LaTeX EDITOR'), (r'\zzopt{KEY}', 'Defword'),
        (r'\gls{zzgl}', 'glstext one'), (r'\Gls{zzgl}', 'Glstext one'), (r'\GLS{zzgl}', 'GLSTEXT ONE'),
        (r'\cref{zzeq}', 'eq. (0)'), (r'\Cref{zzeq}', 'Equation (0)'), (r'\cref{zzsec}', 'section 0'),
        (r'\crefrange{zzeq}{zzer}', 'eqs. (0) to (0)'), (r'\cref{zzeq}', 'eq. (0)'), (r'\cref{zzlong}', 'see eq'),
@@ -84,6 +84,7 @@ PREAMBLE = ('\\newtheorem{zzthm}{Zzthm}\n'
             '\\newcommand{\\zzone}[1]{#1}\n'
             '\\newcommand{\\zztwo}[2]{#2}\n'
             '\\newcommand{\\zzbody}{Bodyone Bodytwo}\n'
+            '\\newcommand{\\zzvb}{\\begin{verbatim}Bodyverb Verbtwo\\end{verbatim}}\n'
             '\\newcommand{\\zzopt}[2][Defword]{#1}\n'
             '\\newcommand{\\zzpair}[2]{#1 Bodymid #2}\n'
             '\\newcommand{\\zztwice}[1]{#1 Bodyand #1}\n'
@@ -320,6 +321,8 @@ def render_item(m, it):
         m.cur().append(('sep', 'P', True))
         m.cur().append(('v', False))
     elif k == 'gen' and m.flags.get('no_biblatex') and it[1][0].startswith(('\\parencite', '\\Parencite', '\\Cite')):
+        render_item(m, ('word',))
+    elif k == 'gen' and it[1][0] == '\\zzvb' and (m.flags.get('no_verbatim') or m.in_head):
         render_item(m, ('word',))
     elif k == 'gen':
         lo = m.n
